@@ -24,7 +24,7 @@ ICountOk(e) == /\ e.n = (IF e.side = 1 THEN e.parts ELSE e.parts + 1)
 \* inexact coordinates: exactly the requested number of points, from the first vertex to the last
 FCountOk(e) == e.n = e.nreq /\ e.ends = 1
 Ok(e) == CASE e.k = "icount" -> ICountOk(e) [] e.k = "fcount" -> FCountOk(e)
-           [] OTHER -> e.k = "resample" /\ (IF e.geo = 1 THEN GeoOk(e) ELSE ExactOk(e) /\ e.pstable = 1)
+           [] OTHER -> e.k = "resample" /\ (IF e.geo = 1 THEN GeoOk(e) ELSE ExactOk(e) /\ e.pstable = 1 /\ e.asis = 1)
 Init == l = 1 /\ bad = {}
 Next == /\ l <= Len(Trace) /\ l' = l + 1
         /\ bad' = IF Ok(Trace[l]) THEN bad ELSE bad \cup {l}
